@@ -246,6 +246,13 @@ pub fn gen(seed: u64, count: usize, tier: &str, params: &Params) -> Vec<Value> {
                 let lane: Vec<i64> = (0..n).map(|t| if off + 2 + t == target + 2 { 1 } else { 0 }).collect();
                 cases.push(json!({"ev": "remove_nan", "ty": ty, "lane": lane, "stride": 1, "off": off}));
             }
+            "remove_nan" if rng.chance(1, 25) => {
+                // lanes beyond 256 elements on the narrow element types (in-block offsets kept in a byte would wrap there)
+                let ty = *rng.pick(&["f32", "opt_u16", "opt_i16", "f32", "opt_i32"]);
+                let n = rng.range(257, 600);
+                let lane: Vec<i64> = (0..n).map(|_| (rng.below(8) != 0) as i64).collect();
+                cases.push(json!({"ev": "remove_nan", "ty": ty, "lane": lane, "stride": *rng.pick(&[1i64, 1, 2, -1]), "off": rng.below(3)}));
+            }
             "remove_nan" if rng.chance(1, 8) => {
                 // long lanes (33..130) whose missing values sit only in the last few positions (block-wise scans skip tails)
                 let n = rng.range(33, 130);
